@@ -56,13 +56,27 @@ MANIFEST = dict(
 
 THEOREMS = ["C01_binop_agree_partial", "C01_expr_agree_partial", "C01_program_sound_partial",
             "C01_expr_agree_fixed_partial", "C01_program_sound_fixed_partial"]
-# kernel primitives (not axioms) that Print Assumptions lists for the float-exact witness lemma only
-ALLOWED_AXIOMS = ["PrimInt63.sub", "PrimFloat.sub", "PrimFloat.opp", "PrimFloat.of_uint63", "PrimFloat.normfr_mantissa",
-                  "PrimFloat.ltb", "PrimFloat.leb", "PrimFloat.mul", "PrimFloat.compare", "PrimFloat.classify",
-                  "PrimInt63.lsr", "PrimInt63.lsl", "PrimInt63.lor", "PrimFloat.ldshiftexp", "PrimInt63.land",
-                  "PrimInt63.int", "PrimFloat.frshiftexp", "PrimFloat.float", "PrimInt63.eqb", "PrimFloat.eqb",
-                  "PrimFloat.div", "PrimFloat.add", "PrimFloat.abs", "PrimInt63.add", "PrimInt63.mul", "PrimInt63.ltb",
-                  "PrimInt63.leb"]
+# Print Assumptions lists, by short name, the kernel primitives (not axioms) the float-exact theorems use.  coqchk -o
+# (thorough tier) instead lists everything axiom-like in the whole loaded cone: every primitive of PrimFloat /
+# PrimInt63 and the standard library's specification axioms of the primitive integers (Uint63.*_spec, loaded through
+# Coq.Floats.FloatOps, which Dim/FloatExact.v needs for Prim2SF / SF2Prim).  Dim/FloatExact.v deliberately does not
+# load Coq.Floats.Floats, so FloatAxioms, FloatLemmas, Psatz and the Reals axioms stay out of the cone.
+_PRIMS = ("PrimFloat.Leibniz.eqb PrimFloat.abs PrimFloat.add PrimFloat.classify PrimFloat.compare PrimFloat.div "
+          "PrimFloat.eqb PrimFloat.float PrimFloat.frshiftexp PrimFloat.ldshiftexp PrimFloat.leb PrimFloat.ltb "
+          "PrimFloat.mul PrimFloat.next_down PrimFloat.next_up PrimFloat.normfr_mantissa PrimFloat.of_uint63 "
+          "PrimFloat.opp PrimFloat.sqrt PrimFloat.sub PrimInt63.add PrimInt63.addc PrimInt63.addcarryc "
+          "PrimInt63.addmuldiv PrimInt63.asr PrimInt63.compare PrimInt63.compares PrimInt63.div PrimInt63.diveucl "
+          "PrimInt63.diveucl_21 PrimInt63.divs PrimInt63.eqb PrimInt63.head0 PrimInt63.int PrimInt63.land "
+          "PrimInt63.leb PrimInt63.lesb PrimInt63.lor PrimInt63.lsl PrimInt63.lsr PrimInt63.ltb PrimInt63.ltsb "
+          "PrimInt63.lxor PrimInt63.mod PrimInt63.mods PrimInt63.mul PrimInt63.mulc PrimInt63.sub PrimInt63.subc "
+          "PrimInt63.subcarryc PrimInt63.tail0").split()
+_UINT63_SPECS = ("Uint63.add_spec Uint63.addc_def_spec Uint63.addcarryc_def_spec Uint63.addmuldiv_def_spec "
+                 "Uint63.compare_def_spec Uint63.div_spec Uint63.diveucl_21_spec Uint63.diveucl_def_spec "
+                 "Uint63.eqb_correct Uint63.eqb_refl Uint63.head0_spec Uint63.land_spec Uint63.leb_spec "
+                 "Uint63.lor_spec Uint63.lsl_spec Uint63.lsr_spec Uint63.ltb_spec Uint63.lxor_spec Uint63.mod_spec "
+                 "Uint63.mul_spec Uint63.mulc_spec Uint63.of_to_Z Uint63.sub_spec Uint63.subc_def_spec "
+                 "Uint63.subcarryc_def_spec Uint63.tail0_spec").split()
+ALLOWED_AXIOMS = _PRIMS + _UINT63_SPECS
 IMPORTS = ["Dim.Model", "Dim.Infer", "Dim.Exec", "Gen.PreludeDims"]
 
 # run-time error kinds that mean "went wrong dimensionally"
@@ -112,6 +126,17 @@ def f64_exponent_differs(x):
                 return True
         return any(f64_exponent_differs(y) for y in x)
     return False
+
+
+def zero_operand_in_definition(src, name):
+    """C01-zero-unitless, second shape: the (latest) definition of the global contains the polymorphic literal 0 as
+    an operand of + or - (add/sub return the other operand when one side is zero: `(3 Hz^-1 - 3 s) + 0` is the
+    unitless literal at run time)"""
+    defs = re.findall(r"(?m)^let %s(?:: [^=\n]*)? = (.*)$" % re.escape(name), src)
+    if not defs:
+        return False
+    e = defs[-1]
+    return re.search(r"[+-] 0\)|\(0 [+-] ", e) is not None or re.search(r"(?:^| )[+-] 0$|^0 [+-] ", e) is not None
 
 
 def parse_raw(extra):
@@ -366,7 +391,8 @@ def run(chk):
                 kf = fd
             elif m.get("kind") == "zero-literal-unitless" and f["kind"].startswith("run-time unit") \
                     and f.get("runtime_unit") == "q||D[]" \
-                    and re.search(r"(?m)^let %s(: [^=]*)? = 0$" % re.escape(f.get("name", "?")), src):
+                    and (re.search(r"(?m)^let %s(: [^=]*)? = 0$" % re.escape(f.get("name", "?")), src)
+                         or zero_operand_in_definition(src, f.get("name", "?"))):
                 kf = fd
         if kf:
             if kf["id"] not in hits:
